@@ -61,6 +61,9 @@ type wPolicy struct {
 	Files          []*wFile // "targets" first when present
 	Globals        []wGlobal
 	Controllers    []wController
+	// controller repositories the root of trust declares (name, location); State.Verify clones and
+	// verifies each of them whenever the tree carries controller metadata
+	DeclaredControllers [][2]string
 	Hooks          []wHook // C20: pre-commit hooks declared in the root of trust
 	Apps           []wApp  // C09: code-review apps declared in the root of trust
 	// the root envelope carries no signature of its own: its signature block is copied verbatim from
@@ -307,6 +310,11 @@ func (p *wPolicy) rootMetadata() *tufv02.RootMetadata {
 			tids = append(tids, poolKeyN(k).SSLib.KeyID)
 		}
 		r.Roles[tuf.TargetsRoleName] = tufv02.Role{PrincipalIDs: set.NewSetFromItems(tids...), Threshold: p.TargetsThr}
+	}
+	for _, dc := range p.DeclaredControllers {
+		if err := r.AddControllerRepository(dc[0], dc[1], []tuf.Principal{keyPrincipal(1)}); err != nil {
+			panic(err)
+		}
 	}
 	for _, a := range p.Apps {
 		if err := r.AddGitHubAppPrincipal(a.Name, keyPrincipal(a.Key)); err != nil {
